@@ -646,13 +646,20 @@ def network_stage(st, r, cx, cls, pool, first):
             rx_cache[(i, lab)] = st.Reaction(t if forms[i] else [summed(s_), summed(p_)], kf=1, kr=r.choice([0, 1]), label=lab)
         return rx_cache[(i, lab)]
 
-    def mk(species_labels, reaction_labels):
-        """the same Species / Reaction objects serve every variant; a repeated label gets an object of its own"""
+    def mk(species_labels, reaction_labels, same_object=False):
+        """the same Species / Reaction objects serve every variant; a repeated label gets an object of its own - or, with
+        same_object, the very same object listed twice (one object, still two entries with one label)"""
         seen, sp = set(), []
         for l in species_labels:
-            sp.append(species_obj(l, new=l in seen))
+            sp.append(species_obj(l, new=(l in seen) and not same_object))
             seen.add(l)
         rs = [reaction_obj(i, lab) for i, lab in enumerate(reaction_labels)]
+        if same_object:
+            first = {}
+            for i_, lab_ in enumerate(reaction_labels):
+                if lab_ is not None and lab_ in first:
+                    rs[i_] = rs[first[lab_]]
+                first.setdefault(lab_, i_)
         return st.RDNetwork(species=sp, reactions=rs)
 
     ctx = {"network": {"species": species, "equations": [t for _, _, t in eqs], "reaction_labels": rlabels}}
@@ -669,12 +676,13 @@ def network_stage(st, r, cx, cls, pool, first):
             return False
 
     def must_refuse(what, counter, sl, rl, **kw):
-        try:
-            mk(sl, rl)
-            cx.fail("network: " + what + " accepted", species_given=sl, labels_given=rl, **kw, **ctx)
-        except Exception:
-            pass
-        cx.count(counter)
+        for same in ((False, True) if "duplicate" in what else (False,)):
+            try:
+                mk(sl, rl, same_object=same)
+                cx.fail("network: " + what + (" (the same object listed twice)" if same else "") + " accepted", species_given=sl, labels_given=rl, **kw, **ctx)
+            except Exception:
+                pass
+            cx.count(counter)
 
     if not must_accept("base", species, rlabels):
         return
@@ -807,6 +815,12 @@ def main():
     _w = ['reaction', 'network']
     _rx(run, "vf.history:h_default_isolation", [{"seed": _sd0(), "idx": _i, "which": _w[_i % len(_w)]} for _i in range(1400 if _tr0() == "thorough" else 140)],
         cpu_budget=60, kind_prefix="history: ")
+    # a key left out of a dictionary means the constructor's documented default, in the object's own units (vf/history.py)
+    from vf.sandbox import run_extra as _rxd
+    from vf.common import seed as _sdd, tier as _trd
+    _wd = ['reaction']
+    _rxd(run, "vf.history:h_dict_defaults", [{"seed": _sdd(), "idx": _i, "which": _wd[_i % len(_wd)]} for _i in range(1200 if _trd() == "thorough" else 120)],
+         cpu_budget=60, kind_prefix="history: ")
     return run.finish()
 
 
